@@ -3,6 +3,7 @@ import AgdbColl.Lemmas.Inv
 import AgdbColl.Lemmas.Values
 import AgdbColl.Lemmas.IndexInv
 import AgdbColl.Lemmas.Refine2
+import AgdbColl.Lemmas.RemoveComplete
 /-!
 # C19 — every query terminates after any history (hashed collections)
 
@@ -200,16 +201,70 @@ def opEffect (op : MOp K T) (P : Slot K T → Bool) (before after : Nat) : Prop 
   | .reserve _ => after = before
   | .insertOrReplace _ _ _ => True
 
-/-- full refinement statement: additionally `remove_key` leaves no pair of the key, `remove_value`
-removes a pair whenever one is stored, `values` returns exactly the values of the key with
-multiplicity, and `insert_or_replace` replaces a matching pair or adds one (alias maps) -/
+/-- what is still missing for a refinement of the WHOLE interface: `values` returns exactly the
+values of the key with multiplicity, and `insert_or_replace` replaces a matching pair or adds one
+(alias maps) -/
 def MultiMap_refines_statement (h : K → Nat) : Prop :=
-  ∀ m : MM K T, Reachable h m → ∀ (op : MOp K T) (F : Nat) (m' : MM K T), opFuel m op ≤ F →
-    applyOpW false h F m op = .ok m' →
-    (∀ k, op = .removeKey k → cnt (keyP k) m'.slots = 0) ∧
-    (∀ k v, op = .removeValue k v → 0 < cnt (pairP k v) m.slots →
-      cnt (pairP k v) m'.slots + 1 = cnt (pairP k v) m.slots) ∧
-    (∀ k vs, values h F m k = .ok vs → ∀ v, vs.count v = cnt (pairP k v) m.slots)
+  ∀ m : MM K T, Reachable h m →
+    (∀ k F vs, values h F m k = .ok vs → ∀ v, vs.count v = cnt (pairP k v) m.slots) ∧
+    (∀ k pred nv F m' r, insertOrReplace h F m k pred nv = .ok (m', r) →
+      ∀ P : Slot K T → Bool, VP P →
+        match r with
+        | some old => pred old = true ∧
+            cnt P m'.slots + (if P ⟨.valid, k, old⟩ = true then 1 else 0) =
+              cnt P m.slots + (if P ⟨.valid, k, nv⟩ = true then 1 else 0)
+        | none => cnt P m'.slots = cnt P m.slots + (if P ⟨.valid, k, nv⟩ = true then 1 else 0))
+
+/-- **MultiMap_refines** (full for the index multimap's operations): for every state of an index
+multimap (any history of `insert` / `remove_key` / `remove_value` / `reserve`, arbitrary hash
+function) and the next operation:
+* `len` is the number of `Valid` slots;
+* `insert k v` adds exactly the pair `(k, v)` (every count `cnt P` grows by `[P (k,v)]`);
+* `remove_value k v` removes exactly one pair `(k, v)` if one is stored, otherwise nothing;
+* `remove_key k` leaves no pair of key `k` and changes no pair of another key;
+* `reserve` — and every `rehash`, grow or shrink, inside the other operations — changes no count;
+* `value` / `contains` answer `some v` only for a stored pair `(key, v)` and `none` only if no pair
+  of the key is stored.
+Not covered (see `MultiMap_refines_statement`): multiplicities of `values`, `insert_or_replace`. -/
+theorem MultiMap_refines (h : K → Nat) (m : MM K T) (hr : ReachableIndex h m) :
+    m.len = countValid m.slots ∧
+    (∀ k v F m', opFuel m (.insert k v) ≤ F → insert h F m k v = .ok m' →
+      ∀ P : Slot K T → Bool, VP P →
+        cnt P m'.slots = cnt P m.slots + (if P ⟨.valid, k, v⟩ = true then 1 else 0)) ∧
+    (∀ k v F m', removeValue h F m k v = .ok m' → ∀ P : Slot K T → Bool, VP P →
+      if 0 < cnt (pairP k v) m.slots then
+        cnt P m'.slots + (if P ⟨.valid, k, v⟩ = true then 1 else 0) = cnt P m.slots
+      else cnt P m'.slots = cnt P m.slots) ∧
+    (∀ k F m', opFuel m (.removeKey k) ≤ F → removeKey h F m k = .ok m' →
+      cnt (keyP k) m'.slots = 0 ∧
+      ∀ P : Slot K T → Bool, VP P → (∀ sl, P sl = true → sl.key ≠ k) → cnt P m'.slots = cnt P m.slots) ∧
+    (∀ c F m', reserve h F m c = .ok m' → ∀ P : Slot K T → Bool, VP P → cnt P m'.slots = cnt P m.slots) ∧
+    (∀ key F r, value h F m key = .ok r →
+      (∀ v, r = some v → 0 < cnt (pairP key v) m.slots) ∧ (r = none → cnt (keyP key) m.slots = 0)) := by
+  have hi := C19_inv_reachable h m (reachableIndex_reachable h m hr)
+  have hc := C19_index_chain h m hr
+  refine ⟨hi.1, ?_, ?_, ?_, ?_, ?_⟩
+  · intro k v F m' hF hok
+    exact (insert_refine h F m m' k v hi hc (by simpa [opFuel, fuelBound] using hF) hok).2
+  · intro k v F m' hok P hP
+    by_cases hpos : 0 < cnt (pairP k v) m.slots
+    · rw [if_pos hpos]
+      exact removeValue_complete h F m m' k v hi hc hok hpos P hP
+    · rw [if_neg hpos]
+      rcases (removeValue_refine h F m m' k v hi hc hok).2 with a | a
+      · exact a P hP
+      · exfalso
+        have := a (pairP k v) (VP_pairP k v)
+        have e1 : pairP k v (⟨.valid, k, v⟩ : Slot K T) = true := by simp [pairP]
+        rw [if_pos e1] at this
+        omega
+  · intro k F m' hF hok
+    exact ⟨removeKey_complete h F m m' k hi hc (by simpa [opFuel, fuelBound] using hF) hok,
+      (removeKey_refine h F m m' k hi hc (by simpa [opFuel, fuelBound] using hF) hok).2⟩
+  · intro c F m' hok
+    exact (reserve_refine h F m m' c hi hc hok).2
+  · intro key F r hv
+    exact value_refine h F m key hc r hv
 
 /-- **MultiMap_refines (partial)**: for every state of an index multimap (any history of
 `insert` / `remove_key` / `remove_value` / `reserve`, arbitrary hash function):
